@@ -2,7 +2,7 @@
 
 Seam: sna2skool.main (stdout -> skool file) then skool2bin.main, in-process.
 A. Instruction sweep: one image holding every opcode slot with every operand byte
-   drawn from {00,01,22 ("),41,5C (\\),7F,80,FF}; boundaries known by construction
+   drawn from {00,01,22 ("),41,5C (\\),7F,80,A2,DC,FF}; boundaries known by construction
    (reference decoder lengths); x base letter on the C sub-block (n,b,c,d,h,m; the 36
    two-letter pairs on an image of the two-operand forms) x {-H} x {-l} x Opcodes.
 B. Control-file shapes over a 16-byte window and three fills (code, text incl. quote /
@@ -27,7 +27,7 @@ from .c07 import slots as c07_slots
 PROPERTY = 'C01'
 NEEDS_C = False
 
-ALPHA = (0x00, 0x01, 0x22, 0x41, 0x5C, 0x7F, 0x80, 0xFF)
+ALPHA = (0x00, 0x01, 0x22, 0x41, 0x5C, 0x7F, 0x80, 0xA2, 0xDC, 0xFF)     # incl. 0xA2/0xDC: quote and backslash with bit 7 set
 ORG = 0x6000
 
 
